@@ -33,7 +33,7 @@ CLAIMED = {
    ref="DESIGN 7 C09", note="windowSize 10; DB 2 for 8 configurations + DB 3 for one each (quick), DB 3 (thorough)"),
  "C10": dict(technique=T_T + "; lazy virtual clock, oracle at every quiescent state",
    text="All interleavings of a releasing holder with 1-3 callers going to sleep, for blocking/deadline/queue limiters and all outcomes: at every quiescent state no caller is parked while capacity is free; violations carry a signature computed from public-seam events.",
-   ref="DESIGN 7 C10", note="two open known findings (blocking/deadline wake-before-registered)"),
+   ref="DESIGN 7 C10", note="lazy clock: a timeout-driven retry shows as a quiescent state with a parked caller"),
  "C11": dict(technique=T_T + " (preemption bound 0: exhaustive event sequences of a quiescence-stepped driver) + racing releases",
    text="Every sequence of arrivals/releases/timeouts/cancellations up to a depth, for every constructor (config, defaults, deprecated FIFO/LIFO wrappers, pools): each grant goes to the waiter a reference FIFO/LIFO queue predicts.",
    ref="DESIGN 7 C11", note="up to 4-5 waiters, depth 5-6"),
@@ -60,7 +60,7 @@ CLAIMED = {
    ref="DESIGN 7 C18", note="depth 6 (quick) / 8 (thorough)"),
  "C19": dict(technique=T_T + "; lazy virtual clock",
    text="N > limit callers on fixed and generic pools (all orderings): holders never exceed the limit, everybody is granted with no virtual time elapsing, nobody is parked while a slot is free.",
-   ref="DESIGN 7 C19", note="one open known finding (random-ordering pools inherit the blocking limiter's lost wake-up)"),
+   ref="DESIGN 7 C19", note="limit 1-2, up to limit+2 callers"),
  "C20": dict(technique=T_S + " + " + T_T + " for the poller life cycle",
    text="Instrumented strategies/limits/queue limiter over a recording registry (samples and gauges equal the model after every step); bundled registries' backend contents and dogstatsd datagrams for every kind x prefix x id; all Start/Stop/Register/tick sequences and Stop racing a tick under the virtual ticker.",
    ref="DESIGN 7 C20", note="third-party go-metrics/dogstatsd run unmodified"),
